@@ -380,9 +380,9 @@ func execUpload(vec J, out *Writer) {
 			os.Mkdir(pathOfListed(at-1), 0755)
 		case "dstdir":
 			os.MkdirAll(filepath.Join(dst, bases[at-1].(string), "occupied"), 0755)
-		case "stale", "stalelong":
+		case "stale", "stalelong", "stalesame":
 			// not a failure: an older upload left a file of the same name and length (or a LONGER one), with other bytes
-			// and a newer mtime
+			// and a newer mtime ("stalesame": with the very mtime of the source file, as cp -p or rsync -t leave it)
 			stale := bytes.ToUpper(contentOf(fmt.Sprintf("f%d", at)))
 			if fk == "stalelong" {
 				stale = append(stale, []byte("\n-- tail of an older, longer file --\n")...)
@@ -390,6 +390,11 @@ func execUpload(vec J, out *Writer) {
 			p := filepath.Join(dst, bases[at-1].(string))
 			os.WriteFile(p, stale, 0644)
 			future := time.Now().Add(48 * time.Hour)
+			if fk == "stalesame" {
+				if st, err := os.Stat(pathOfListed(at - 1)); err == nil {
+					future = st.ModTime()
+				}
+			}
 			os.Chtimes(p, future, future)
 		}
 	}
@@ -478,7 +483,7 @@ func execUpload(vec J, out *Writer) {
 			os.Remove(ctlPath)
 		case "dstdir":
 			os.MkdirAll(filepath.Join(dst, ctlName, "occupied"), 0755)
-		case "stale", "stalelong":
+		case "stale", "stalelong", "stalesame":
 			p := filepath.Join(dst, ctlName)
 			old := bytes.ToUpper(text.Bytes())
 			if fk == "stalelong" {
@@ -486,6 +491,11 @@ func execUpload(vec J, out *Writer) {
 			}
 			os.WriteFile(p, old, 0644)
 			future := time.Now().Add(48 * time.Hour)
+			if fk == "stalesame" {
+				if st, err := os.Stat(ctlPath); err == nil {
+					future = st.ModTime()
+				}
+			}
 			os.Chtimes(p, future, future)
 		}
 	}
